@@ -75,13 +75,15 @@ fn isolation_configs(tier: Tier) -> Vec<(Cfg, Plan)> {
     use iso::{DomCfg, ICfg};
     let quick = tier == Tier::Quick;
     // prefix relations: same, A prefix of B, B prefix of A, siblings with a common stem, unrelated
-    let prefix_pairs: [(usize, usize); 6] = [(0, 0), (2, 0), (0, 2), (0, 1), (1, 0), (0, 3)];
+    let prefix_pairs: [(usize, usize); 8] = [(0, 0), (2, 0), (0, 2), (0, 1), (1, 0), (0, 3), (2, 4), (4, 2)];
     // root relations: same, A below B, B below A, unrelated
     let root_pairs: [(usize, usize); 4] = [(0, 0), (1, 0), (0, 1), (0, 2)];
     let mut v = Vec::new();
     // quick: every prefix relation under the same root, every root relation with the same prefix, and
     // three mixed pairs; thorough: the full product
-    let quick_pairs: [((usize, usize), (usize, usize)); 11] = [
+    let quick_pairs: [((usize, usize), (usize, usize)); 13] = [
+        ((2, 4), (0, 0)),
+        ((4, 2), (0, 0)),
         ((0, 0), (0, 0)),
         ((2, 0), (0, 0)),
         ((0, 2), (0, 0)),
@@ -146,7 +148,7 @@ impl Harness for H {
         }
         let _ = std::fs::remove_dir_all(&dir);
         format!(
-            "(a) validation: one execution = one chunk of the input space of one string type (FileName, RestrictedFileName<8>, Path, FilePath, UserName, GroupName, Base64Url, ServiceName, NodeName); the single operation CheckChunk loops over the chunk. Chunks per type: every byte string of length 0..=2 over 0..=255; every byte string of length 3 over 0..=255 (thorough tier: every type; quick tier: FileName, Path and FilePath, the other types over a 32 byte alphabet; split by first byte; for the &str constructors of ServiceName / NodeName only the valid UTF-8 strings are expressible); every string over {{'a','/','.',NUL,one type specific byte}} up to length 8; strings of length max-1, max, max+1, max+2 with special bytes and endings at the borders; every mutating operation (push, push_bytes, insert, insert_bytes, remove, remove_range, pop, retain, strip_prefix, strip_suffix, truncate) with every byte (single byte operations: 0..=255) / chunk of length <= 2 over a 12 byte alphabet / position on every accepted string of length <= 2 over that alphabet; derived names (FilePath::file_name/path, Path::entries, FilePath::from_path_and_file, Path::add_path_entry). Each input is compared with an independent predicate written from the documentation (accept <=> predicate, round trip through as_bytes / Display / Into<String>, a rejected edit leaves the value untouched, accepted file names contain no separator, NUL, '.' or '..'). This run: {inputs} inputs in {chunks} chunks checked, {accepted} accepted. (b) isolation: every sequence of create/drop node, create/drop service `svc` (event; thorough tier also publish-subscribe), 'a forked process creates a node and a service and dies', cleanup of dead nodes by two applications A and B (ipc service type) for pairs of domain configurations drawn from 6 prefix relations (same, prefix of one another in both directions, common stem in both directions, unrelated) x 4 root path relations (same, nested in both directions, unrelated) - thorough: all 24, quick: 11 covering every relation; after every step both sides list nodes, list services and call does_exist, the side that did not act also tries to open, and must see exactly the objects of their own domain; files and shared memory objects that appear carry the acting side's prefix and files lie under its root. A distinct state is (node, services held, dead nodes) of both sides."
+            "(a) validation: one execution = one chunk of the input space of one string type (FileName, RestrictedFileName<8>, Path, FilePath, UserName, GroupName, Base64Url, ServiceName, NodeName); the single operation CheckChunk loops over the chunk. Chunks per type: every byte string of length 0..=2 over 0..=255; every byte string of length 3 over 0..=255 (thorough tier: every type; quick tier: FileName, Path and FilePath, the other types over a 32 byte alphabet; split by first byte; for the &str constructors of ServiceName / NodeName only the valid UTF-8 strings are expressible); every string over {{'a','/','.',NUL,one type specific byte}} up to length 8; strings of length max-1, max, max+1, max+2 with special bytes and endings at the borders; every mutating operation (push, push_bytes, insert, insert_bytes, remove, remove_range, pop, retain, strip_prefix, strip_suffix, truncate) with every byte (single byte operations: 0..=255) / chunk of length <= 2 over a 12 byte alphabet / position on every accepted string of length <= 2 over that alphabet; derived names (FilePath::file_name/path, Path::entries, FilePath::from_path_and_file, Path::add_path_entry). Each input is compared with an independent predicate written from the documentation (accept <=> predicate, round trip through as_bytes / Display / Into<String>, a rejected edit leaves the value untouched, accepted file names contain no separator, NUL, '.' or '..'). This run: {inputs} inputs in {chunks} chunks checked, {accepted} accepted. (b) isolation: every sequence of create/drop node, create/drop service `svc` (event; thorough tier also publish-subscribe), 'a forked process creates a node and a service and dies', cleanup of dead nodes by two applications A and B (ipc service type) for pairs of domain configurations drawn from 8 prefix relations (same, prefix of one another in both directions, the same with an extension made of a digit, common stem in both directions, unrelated) x 4 root path relations (same, nested in both directions, unrelated) - thorough: all 32, quick: 13 covering every relation; after every step both sides list nodes, list services and call does_exist, the side that did not act also tries to open, and must see exactly the objects of their own domain; files and shared memory objects that appear carry the acting side's prefix and files lie under its root. A distinct state is (node, services held, dead nodes) of both sides."
         )
     }
     fn configs(&self, tier: Tier) -> Vec<(Cfg, Plan)> {
